@@ -29,7 +29,7 @@ def log(*a):
 # --------------------------------------------------------------------------- harness discovery
 
 META_RE = re.compile(r"^\s*//#\s*([a-z-]+)\s*:\s*(.*)$")
-FN_RE = re.compile(r"^\s*pub fn ([a-z0-9_]+)\s*\(\s*\)")
+FN_RE = re.compile(r"^\s*pub fn ([a-z0-9_]+)\s*\(\s*\)|^[a-z_]+_harness!\(\s*([a-z0-9_]+)\s*,")
 
 
 def discover():
@@ -67,8 +67,8 @@ def discover():
                     stubs.append(s.group(1).strip() + " -> " + s.group(2).strip())
                     continue
                 f = FN_RE.match(line)
-                if f and in_block and ("props" in meta or f.group(1).startswith("canary")):
-                    name = f.group(1)
+                if f and in_block and ("props" in meta or (f.group(1) or f.group(2)).startswith("canary")):
+                    name = f.group(1) or f.group(2)
                     h = {
                         "name": name,
                         "engine": eng.name,
